@@ -57,7 +57,7 @@ def r9_bytes_to_utf16(ctx):
                 for t in terms:
                     c = classify(t)
                     if c.startswith("byte:"):
-                        born = t[1] if t[0] in ("call", "param", "agg", "expr") else f.id
+                        born = t[1] if t[0] in ("call", "param", "agg", "expr", "closure-param") else f.id
                         key = "R9a|%s|%s -> Position.character" % (born, c[5:])
                         seen_keys.setdefault(key, crate.span_str(sp))
                 if all(classify(t) in ("const", "utf16") for t in terms) and terms:
@@ -69,7 +69,7 @@ def r9_bytes_to_utf16(ctx):
             r.violate(key, "a byte column flows unconverted into an LSP Position (constructed at %s): ranges are shifted on lines "
                            "with non-ASCII text before the token" % where)
     r.counts["position_constructions"] = n
-    r.floor("Position constructions", n, 8)
+    r.floor("Position constructions", n, 3)
     return r
 
 
